@@ -8,9 +8,10 @@
                           with the proposed repairs (`fx = .repaired`);
     `elfWrites fx c img`  the writes it performs, oldest first: one per `PT_LOAD` (page-rounded block
                           returned by `Elf.loadsegment`), the stack pages, one per relocation slot;
-    `LoadableOK c img`    decidable: what a kernel maps as the file says — page size ≥ 1, every `PT_LOAD`
-                          has `p_offset & (ps-1) = p_vaddr & (ps-1)` (for a power of two: congruent modulo
-                          the page size, lemma `loadable_pow2`), `filesz ≤ memsz`, `0 < memsz`, file part
+    `LoadableOK c img`    decidable: what the loader maps as the file says — page size ≥ 1, every `PT_LOAD`
+                          has `p_vaddr & (ps-1) ≤ p_offset` (implied by `p_offset ≡ p_vaddr` modulo the page,
+                          lemmas `congruent_seekable`, `congruent_pow2`; unaligned segments are admitted too),
+                          `filesz ≤ memsz`, `0 < memsz`, file part
                           inside the file; segments ascending and disjoint in memory; where a later
                           segment's first page reaches into an earlier segment both show the same file
                           bytes and the earlier one has no zero-filled part; the stack pages lie apart;
@@ -41,11 +42,15 @@ theorem page_pow2 (k v : Nat) :
     pageOffset (2 ^ k) v = v % 2 ^ k ∧ pageStart (2 ^ k) v = v / 2 ^ k * 2 ^ k :=
   ⟨pageOffset_pow2 k v, pageStart_pow2 k v⟩
 
-/-- so for a power-of-two page size the first clause of `SegOK` is `p_offset ≡ p_vaddr (mod page size)`. -/
-theorem loadable_pow2 (file : Bytes) (k : Nat) (s : Phdr) :
-    SegOK file (2 ^ k) s ↔
-      (s.offset % 2 ^ k = s.vaddr % 2 ^ k ∧ s.filesz ≤ s.memsz ∧ 0 < s.memsz ∧ s.offset + s.filesz ≤ file.length) := by
-  unfold SegOK
+/-- a segment whose file offset and address agree modulo the page (what a kernel insists on; for a power
+    of two: `p_offset ≡ p_vaddr (mod page size)`) satisfies the first clause of `SegOK`; `SegOK` also admits
+    unaligned segments, which the loader maps just as well. -/
+theorem congruent_seekable (ps : Nat) (s : Phdr) (h : SegCongruent ps s) : pageOffset ps s.vaddr ≤ s.offset := by
+  unfold SegCongruent at h
+  rw [← h]; exact pageOffset_le ps s.offset
+
+theorem congruent_pow2 (k : Nat) (s : Phdr) : SegCongruent (2 ^ k) s ↔ s.offset % 2 ^ k = s.vaddr % 2 ^ k := by
+  unfold SegCongruent
   rw [pageOffset_pow2, pageOffset_pow2]
 
 /-! ## one segment: what `Elf.loadsegment` returns -/
@@ -60,7 +65,7 @@ theorem loadsegment_bytes (file : Bytes) (ps : Nat) (s : Phdr) (hps : 0 < ps) (o
     (∀ k, k < pageOffset ps s.vaddr →
       (segBytes .repaired file ps s)[k]? = file[s.offset - pageOffset ps s.vaddr + k]?) := by
   obtain ⟨hc, hfm, hpos, hin⟩ := ok
-  have hpo : pageOffset ps s.vaddr ≤ s.offset := by rw [← hc]; exact pageOffset_le ps s.offset
+  have hpo : pageOffset ps s.vaddr ≤ s.offset := hc
   refine ⟨fun i hi => ?_, fun i h1 h2 => ?_, fun k hk => ?_⟩
   · have := segBytes_file file ps s (pageOffset ps s.vaddr + i) hps hpo hin (by omega)
     have e : s.offset - pageOffset ps s.vaddr + (pageOffset ps s.vaddr + i) = s.offset + i := by omega
@@ -87,7 +92,7 @@ theorem elf_loads (h : LoadableOK c img) :
       intro s hs
       obtain ⟨hc, _⟩ := hseg s hs
       simp only [Phdr.seekOk, decide_eq_true_eq]
-      rw [← hc]; exact pageOffset_le _ _
+      exact hc
     rw [if_pos this]
   · intro w hw
     unfold elfWrites at hw
@@ -96,7 +101,7 @@ theorem elf_loads (h : LoadableOK c img) :
       · unfold segWrites at hw
         obtain ⟨s, hs, rfl⟩ := List.mem_map.mp hw
         obtain ⟨hc, hfm, hpos, hin⟩ := hseg s hs
-        have hpo : pageOffset c.ps s.vaddr ≤ s.offset := by rw [← hc]; exact pageOffset_le _ _
+        have hpo : pageOffset c.ps s.vaddr ≤ s.offset := hc
         exact segBytes_length_pos img.file c.ps s hps hpo hin hfm hpos
       · unfold stackWrites at hw
         split at hw
@@ -198,7 +203,7 @@ theorem later_segment_write (hps : 0 < c.ps) (s t : Phdr) (okt : SegOK img.file 
     rcases hcl with h1 | ⟨hd, hmf⟩
     · omega
     · obtain ⟨hct, _, _, hint⟩ := okt
-      have hpo : pageOffset c.ps t.vaddr ≤ t.offset := by rw [← hct]; exact pageOffset_le _ _
+      have hpo : pageOffset c.ps t.vaddr ≤ t.offset := hct
       have hk : s.vaddr + i - pageStart c.ps t.vaddr < pageOffset c.ps t.vaddr + t.filesz := by omega
       have := (segBytes_file img.file c.ps t (s.vaddr + i - pageStart c.ps t.vaddr) hps hpo hint hk).1
       have e2 : t.offset - pageOffset c.ps t.vaddr + (s.vaddr + i - pageStart c.ps t.vaddr) = s.offset + i := by omega
@@ -550,6 +555,13 @@ example : lastWrite (elfWrites .none exCfg { exImg with phdrs := [⟨PT_LOAD, 24
 example : lastWrite (elfWrites .repaired exCfg { exImg with phdrs := [⟨PT_LOAD, 24, 56, 4, 30⟩] }) 61 = some (.raw 0) := by decide
 
 example : notInSlots exCfg.ptr (elfSlots exCfg exImg) (32 + 1) := by decide
+
+-- an unaligned segment (file offset 21, address 35: different in-page offsets for page size 16) with a
+-- zero-filled tail is covered by the hypothesis as well
+def exUnaligned : ElfImage := { exImg with phdrs := [⟨PT_LOAD, 21, 35, 8, 12⟩] }
+example : LoadableOK exCfg exUnaligned ∧ ¬ SegCongruent 16 ⟨PT_LOAD, 21, 35, 8, 12⟩ := by decide
+example : lastWrite (elfWrites .repaired exCfg exUnaligned) 35 = some (.raw 21) := by decide
+example : lastWrite (elfWrites .repaired exCfg exUnaligned) 44 = some (.raw 0) := by decide
 
 -- a clobbering layout (second segment's page comes from another file page) is not `LoadableOK` …
 def exClobber : ElfImage := { exImg with phdrs := [⟨PT_LOAD, 0, 32, 20, 20⟩, ⟨PT_LOAD, 40, 56, 8, 8⟩] }
